@@ -174,8 +174,11 @@ def check(plan, res):
             if w[0] == 'enq' and stats is None: (acc if w[2] == 'ret=1' else rej).append(w[1])
             elif w[0] == 'deq' and w[1] == 'ret=1': deq.append(w[2])
             elif w[0] == 'qstats': stats = dict(x.split('=') for x in w[1:])
+        # an enqueue is logged when it returns; the consumer can see the item before the producer is scheduled again,
+        # so acceptance anywhere in the log counts for the phantom rule (payloads are unique)
+        acc_all = [r.split(' ')[1] for y, t, th, r in E if r.startswith('enq ') and r.split(' ')[2] == 'ret=1']
         for d in deq:
-            if d not in acc: v.append(Violation(PROP, 'phantom', 'dequeued %s which was never accepted' % d, PROP + '/queue/phantom')); break
+            if d not in acc_all: v.append(Violation(PROP, 'phantom', 'dequeued %s which was never accepted' % d, PROP + '/queue/phantom')); break
         if len(set(deq)) != len(deq): v.append(Violation(PROP, 'dup', 'a message was dequeued twice: %s' % deq, PROP + '/queue/duplicated'))
         for prod in sorted(set(x.split('_')[0] for x in acc)):
             seq = [x for x in deq if x.split('_')[0] == prod]
